@@ -422,4 +422,36 @@ def run (s : State) : List (Ev × List (List (Nat × Nat))) → State × List (L
     let (s2, ts) := run s1 rest
     (s2, t :: ts)
 
+/-! ## answers that are neither a sample nor a timeout
+
+  `get_sample` returns an error other than `RequestTimedOut` when the P2p layer fails (`WorkerDied`, a closed
+  channel) or when the bytes handed back do not decode to the requested sample (`get_block_container`: not a
+  `Block`, CID different from the requested one; `Sample::decode` fails).  The block future then returns
+  `Err(e)` *before* publishing a `ShareSamplingResult`, the `select!` arm propagates it (`res?`), `run` returns
+  `Err` and `Daser::start`'s task publishes `FatalDaserError`: the worker is gone, nothing is marked.
+  Kept outside `Ev` (additive): `Stim` is a stimulus of either kind. -/
+
+/-- the network's answer for share `p` of block `h` is an error other than a timeout, or undecodable / foreign bytes -/
+def onBadAnswer (s : State) (h : Nat) (p : Share) : State × List Tok :=
+  if s.w.dead then (s, [])
+  else
+    match s.w.futs.find? (fun f => f.height == h) with
+    | none => (s, [])
+    | some f => if f.pending.contains p then (die s, [Tok.fatal]) else (s, [])
+
+inductive Stim where
+  | ev (e : Ev) (rnd : List (List (Nat × Nat)))
+  | badAnswer (h : Nat) (p : Share)
+
+def stepX (s : State) : Stim → State × List Tok
+  | .ev e rnd => step s e rnd
+  | .badAnswer h p => onBadAnswer s h p
+
+def runX (s : State) : List Stim → State × List (List Tok)
+  | [] => (s, [])
+  | st :: rest =>
+    let (s1, t) := stepX s st
+    let (s2, ts) := runX s1 rest
+    (s2, t :: ts)
+
 end Lumina.Model.Daser
